@@ -410,6 +410,9 @@ func reifyValue(
 	if t.Kind() == reflect.Interface && t.NumMethod() == 0 {
 		reified, err := val.reify(opts.opts)
 		if err != nil {
+			if e, ok := err.(Error); ok {
+				return reflect.Value{}, e // (names the setting inside val already)
+			}
 			ctx := val.Context()
 			return reflect.Value{}, raisePathErr(err, val.meta(), "", ctx.path("."))
 		}
